@@ -1,7 +1,112 @@
 // harness commands owned by property C07
+//   c07_parse {sql, dialect}  -> sqlparser's parser for the sqlparser dialect that corresponds EXACTLY to the prqlc
+//                                dialect name (redshift -> RedshiftSqlDialect, glaredb -> PostgreSqlDialect, ansi ->
+//                                AnsiDialect): {n: #statements, ast: [...]} with every "span"/"*_token" member removed
+//                                (they are positions, not structure), or {parse_err}.
+//   c07_toks {sql, dialect}   -> sqlparser's tokenizer with locations: {toks: [[kind, text, line, col_start, col_end]]}
+//                                including comment tokens (kind "Comment") and ";" (kind "SemiColon"); whitespace dropped.
+//                                Adjacent tokens are glued iff end of one == start of the next on the same line.
 #![allow(unused_imports, dead_code)]
 use serde_json::{json, Value};
 
-pub fn dispatch(_cmd: &str, _req: &Value) -> Option<Value> {
-    None
+fn dialect_by_name(name: &str) -> Option<Box<dyn sqlparser::dialect::Dialect>> {
+    use sqlparser::dialect::*;
+    Some(match name {
+        "ansi" => Box::new(AnsiDialect {}),
+        "bigquery" => Box::new(BigQueryDialect {}),
+        "clickhouse" => Box::new(ClickHouseDialect {}),
+        "duckdb" => Box::new(DuckDbDialect {}),
+        "generic" => Box::new(GenericDialect {}),
+        "glaredb" => Box::new(PostgreSqlDialect {}),
+        "mssql" => Box::new(MsSqlDialect {}),
+        "mysql" => Box::new(MySqlDialect {}),
+        "postgres" => Box::new(PostgreSqlDialect {}),
+        "redshift" => Box::new(RedshiftSqlDialect {}),
+        "sqlite" => Box::new(SQLiteDialect {}),
+        "snowflake" => Box::new(SnowflakeDialect {}),
+        _ => return None,
+    })
+}
+
+fn strip(v: &mut Value) {
+    match v {
+        Value::Object(m) => {
+            let keys: Vec<String> = m
+                .keys()
+                .filter(|k| k.as_str() == "span" || k.ends_with("_token"))
+                .cloned()
+                .collect();
+            for k in keys {
+                m.remove(&k);
+            }
+            for (_, x) in m.iter_mut() {
+                strip(x);
+            }
+        }
+        Value::Array(a) => {
+            for x in a.iter_mut() {
+                strip(x);
+            }
+        }
+        _ => {}
+    }
+}
+
+fn parse(req: &Value) -> Value {
+    let d = match dialect_by_name(crate::s(req, "dialect")) {
+        Some(d) => d,
+        None => return json!({"bad_dialect": crate::s(req, "dialect")}),
+    };
+    match sqlparser::parser::Parser::parse_sql(&*d, crate::s(req, "sql")) {
+        Ok(stmts) => {
+            let mut ast = serde_json::to_value(&stmts).unwrap_or(Value::Null);
+            strip(&mut ast);
+            json!({"n": stmts.len(), "ast": ast})
+        }
+        Err(e) => json!({"parse_err": e.to_string()}),
+    }
+}
+
+fn toks(req: &Value) -> Value {
+    use sqlparser::tokenizer::{Token, Tokenizer, Whitespace};
+    let d = match dialect_by_name(crate::s(req, "dialect")) {
+        Some(d) => d,
+        None => return json!({"bad_dialect": crate::s(req, "dialect")}),
+    };
+    let mut t = Tokenizer::new(&*d, crate::s(req, "sql"));
+    match t.tokenize_with_location() {
+        Ok(ts) => {
+            let mut out = vec![];
+            for tw in ts.iter() {
+                let kind = match &tw.token {
+                    Token::Whitespace(Whitespace::SingleLineComment { .. })
+                    | Token::Whitespace(Whitespace::MultiLineComment(_)) => "Comment".to_string(),
+                    Token::Whitespace(_) => continue,
+                    Token::EOF => continue,
+                    other => format!("{:?}", other)
+                        .split(['(', ' ', '{'])
+                        .next()
+                        .unwrap_or("")
+                        .to_string(),
+                };
+                out.push(json!([
+                    kind,
+                    tw.token.to_string(),
+                    tw.span.start.line,
+                    tw.span.start.column,
+                    tw.span.end.column
+                ]));
+            }
+            json!({ "toks": out })
+        }
+        Err(e) => json!({"tok_err": e.to_string()}),
+    }
+}
+
+pub fn dispatch(cmd: &str, req: &Value) -> Option<Value> {
+    match cmd {
+        "c07_parse" => Some(parse(req)),
+        "c07_toks" => Some(toks(req)),
+        _ => None,
+    }
 }
